@@ -30,6 +30,7 @@ Definition dispatch_dos (op : bytes) (args : list arg) : option obs :=
   else if is_op op "dos_try_from" then
     match args with
     | [AN ts] => Some (oopt dt_obs (try_from_unix ts))
+    | [AN ts; AN east; AN west] => Some (oopt dt_obs (try_from_unix (ts + east - west)))    (* local calendar fields *)
     | _ => None end
   else None.
 
@@ -41,12 +42,18 @@ Definition dispatch_path (op : bytes) (args : list arg) : option obs :=
     match args with
     | [AB n] => Some (OL [oopt OB (enclosed_name n); OB (mangled_name n); OL (map comp_obs (components n))])
     | _ => None end
+  else if is_op op "pathraw" then
+    match args with
+    | [AN flag; AB raw] =>
+        let n := decode_text (negb (N.eqb flag 0%N)) raw in
+        Some (OL [oopt OB (enclosed_name n); OB (mangled_name n); OL (map comp_obs (components n))])
+    | _ => None end
   else None.
 
 Definition dispatch_text (op : bytes) (args : list arg) : option obs :=
   if is_op op "text" then
     match args with
-    | [AN flag; AB raw] => let f := negb (N.eqb flag 0%N) in Some (OL [OB (decode_text f raw); OB raw])
+    | [AN flag; AB raw] => let f := N.odd flag in Some (OL [OB (decode_text f raw); OB raw])     (* other flag bits: >> 1 *)
     | _ => None end
   else if is_op op "wname" then
     match args with
